@@ -310,6 +310,30 @@ fn memory(ctx: &mut Ctx) {
                 json!({"kind": "memory", "family": name, "text_len": text.len()}));
         }
     }
+    // the deserializer on top of the pump: a full read into IgnoredAny (every node is visited, nothing is kept)
+    let dk = if quick { 300usize } else { 800 };
+    let typed: Vec<(String, String, bool)> = vec![
+        (format!("typed nest_plain(40,400)"), nest_plain(40, 400), false),
+        (format!("typed block_seq({dk})"), format!("{}x", "- ".repeat(dk)), false),
+        (format!("typed wide_map(2000)"), (0..2000).map(|i| format!("k{i}: {i}\n")).collect(), false),
+        (format!("typed seq_keys(300)"), (0..300).map(|i| format!("? [a, b, {i}]\n: {i}\n")).collect(), false),
+        (format!("typed nested_complex_keys({dk})"), format!("{}x", "? ".repeat(dk)), true),
+    ];
+    for (name, text, nested_keys) in typed {
+        let events = util::raw_events(&text).map(|v| v.len()).unwrap_or(0);
+        let (r, peak) = alloc_count::peak_during(|| serde_saphyr::from_str::<serde::de::IgnoredAny>(&text).is_ok());
+        let bound = BYTES_PER_UNIT * (text.len() + events);
+        ctx.direct_evaluations += 1;
+        ctx.count(&format!("mem {name}: ok={r} peak {peak} B, bound {bound} B"));
+        if peak > bound {
+            let class = if nested_keys { "F52:nested-complex-keys-quadratic" } else { "memory-exceeds-linear-bound" };
+            ctx.fail(class, format!("{name}: peak heap {peak} B > {BYTES_PER_UNIT} B x (input {} B + {events} events)", text.len()),
+                json!({"kind": "memory_typed", "family": name, "text_len": text.len()}));
+        }
+        if nested_keys {
+            ctx.witness("F52", peak > bound, "complex keys nested d deep: every level captures (copies) the whole remaining key subtree, d^2/2 buffered events");
+        }
+    }
     // witness of F15 (open finding): d anchored containers around n scalars cost about d*n recorded events
     let (d, n) = (150usize, 1500usize);
     let text = nest(d, n);
